@@ -212,12 +212,17 @@ CLAIMED = {
         "1..128 in IEEE doubles, kernel); instrEvs_specEntries (one bank select + program change on the first sounding note's "
         "channel, immediately before it); entry_tempo_refines (C16Tempo.lean: an entry whose container carries a tempo b >= 4 "
         "writes first the tempo event 60000000 div b WITH THE ACCUMULATED REST AS ITS DELTA, then exactly what the same entry "
-        "without a tempo writes after no rest - the statement the unrepaired code violated), rest_tempo_silent. Tie A: every "
+        "without a tempo writes after no rest - the statement the unrepaired code violated), rest_tempo_silent; "
+        "entry_refinesT ... writeTrack_specT / writeBar_specT / writeComposition_specT (C16TempoTrack.lean: the refinement layer "
+        "with tempo-carrying containers ANYWHERE - any bar, track, composition, repeat count and number of tempo changes: the "
+        "machine writes exactly the events of the extended specification specEntryT; specEntriesT_plain recovers the plain "
+        "one; kernel example with a rest carried into a tempo change, two passes). Tie A: every "
         "statement of MidiTrack, MidiFile and write_*, constants. Tie B: bytes "
         "of real files vs the model, decoded by an independent Python SMF reader.",
    note=TRUST + "Float log in int_to_varbyte / time_signature_event is modelled by the exact integer logarithm (tied by the "
-        "correspondence over all boundaries); the track-level theorems (denotation, balance, parse-back) are stated for music "
-        "without mid-bar tempo changes, the tempo-carrying entry has its own refinement theorem and is compared byte for byte; "
+        "correspondence over all boundaries); the track-level DENOTATION theorems (note timeline, balance, parse-back) are stated for music "
+        "without mid-bar tempo changes; with them the events written are proved to be the extended specification's "
+        "(C16TempoTrack) and the files are compared byte for byte and judged by the oracle; "
         "the 2^32 chunk-size and 2^16 track-count bounds are hypotheses of composition_parses. Five defects repaired by fix: "
         "commits (259d7c9 key signature, adb3a11 bank select, a56fb57 tripled leading rest, fc6c3a8 trailing rest lost on "
         "repeat, ed36e72 rest before a tempo-changing container dropped).",
